@@ -138,7 +138,7 @@ def gen_case(rng: random.Random, tier: str) -> dict:
         cur_nodes = [cur_nodes[i] for i in sub]
         if len(cur_nodes) <= 1:
             break
-    ren = {"style": rng.choice(["none", "none", "fresh", "chain", "swap", "out", "mixed", "out_chain", "rename_then_swap"]), "seed": rng.randrange(1 << 30)}
+    ren = {"style": rng.choice(["none", "none", "fresh", "chain", "swap", "out", "mixed", "out_chain", "rename_then_swap", "out_reuse", "in_reuse"]), "seed": rng.randrange(1 << 30)}
     if rng.random() < 0.3:
         gen.add_falsy_consts(rng, g, 0.2)  # outputs whose VALUE is None / 0 / "" / []: produced, not missing (also across an inner select)
     return {"nested_edges": rng.choice([False, False, False, True, "split"]), "graph": g, "inputs": inp, "cuts": cuts, "rename": ren, "inner_select": rng.random() < 0.25, "bind_inner": rng.random() < 0.7,
@@ -234,6 +234,20 @@ def build_nested(doc: dict) -> tuple[dict, dict, dict, dict]:
             steps.append({"outputs": {o: o + "_t"}})
             steps.append({"outputs": {o + "_t": o + "_r"}})
             rho[o] = o + "_r"
+        if style == "out_reuse" and wout:
+            # an output renamed o -> t -> z -> t: the name t is abandoned and taken again
+            o = rr.choice(wout)
+            steps += [{"outputs": {o: o + "_t"}}, {"outputs": {o + "_t": o + "_z"}}, {"outputs": {o + "_z": o + "_t"}}]
+            rho[o] = o + "_t"
+            if len(wout) >= 2 and rr.random() < 0.5:
+                # ... and a second output takes over a name the first one gave up:  a->K, b->S, K->T, S->K
+                b2 = rr.choice([w for w in wout if w != o])
+                steps[:] = [{"outputs": {o: o + "_K"}}, {"outputs": {b2: b2 + "_S"}}, {"outputs": {o + "_K": o + "_T"}}, {"outputs": {b2 + "_S": o + "_K"}}]
+                rho[o], rho[b2] = o + "_T", o + "_K"
+        if style == "in_reuse" and win:
+            x = rr.choice(win)
+            steps += [{"inputs": {x: x + "_t"}}, {"inputs": {x + "_t": x + "_z"}}, {"inputs": {x + "_z": x + "_t"}}]
+            rho[x] = x + "_t"
         if style == "rename_then_swap" and len(win) >= 2:
             a, b = rr.sample(win, 2)  # an input renamed, then swapped with another one
             steps.append({"inputs": {a: a + "_p"}})
